@@ -3,7 +3,7 @@ import ast
 
 from ..core import AnalysisError
 from ..interp import Interpreter
-from ..terms import Const, Sym, Op, Ite, Ref, TRUE, FALSE, NONE, walk, and_, or_, not_, is_const, subst
+from ..terms import Const, Sym, Op, Ite, Ref, TRUE, FALSE, NONE, walk, and_, or_, not_, is_const, subst, compare, add
 from .. import pelx, effects
 from ..pelx import implies, env_str, unsat
 from ..cli import Cli, FullMain, PT, MODE_FUNCS, ARGS, DECODE_FUNCS
@@ -32,20 +32,32 @@ def decode_results(e):
     return [x for x in walk(e) if isinstance(x, Op) and x.op.startswith("call:") and x.op[5:] in DECODERS]
 
 
+LISTING_CALLS = ("call:os.walk", "call:os.listdir", "call:os.scandir", "call:glob.glob", "call:glob.iglob")
+
+
+def from_listing(I, t, depth=0, seen=None):
+    """does the value derive from a directory listing?  Follows references into summarised lists (elements,
+    sorted()/reversed() sources) - the provenance of a candidate list, however it was assembled."""
+    seen = set() if seen is None else seen
+    for x in walk(t):
+        if isinstance(x, Op) and x.op in LISTING_CALLS:
+            return True
+        if isinstance(x, Ref) and x.oid not in seen and depth < 6:
+            seen.add(x.oid)
+            o = I.heap.get(x.oid)
+            for it in getattr(o, "items", None) or ():
+                if from_listing(I, it[1] if it[0] == "v" else it[2], depth + 1, seen):
+                    return True
+    return False
+
+
 def dir_loops(fm):
-    """loops that iterate over directory entries: os.walk tuples, their file lists, or getFileList's result"""
+    """loops that iterate over directory entries: os.walk tuples, their file lists, or any list assembled from them"""
     out = []
     for L in fm.I.loops.values():
         it = fm.norm(L.iter) if L.iter is not None else None
-        if it is None:
-            continue
-        if any(isinstance(x, Op) and x.op in ("call:os.walk", "call:os.listdir", "call:os.scandir", "call:glob.glob") for x in walk(it)):
+        if it is not None and from_listing(fm.I, it):
             out.append(L)
-        elif isinstance(it, Ref) or any(isinstance(x, Sym) and x.kind == "loopout" and "file_list" in x.name for x in walk(it)):
-            # the sorted file list built by getFileList
-            o = fm.I.heap.get(it.oid) if isinstance(it, Ref) else None
-            if o is not None and getattr(o, "items", None) is not None and any(i[0] in ("rep",) or "listmut" in repr(i[1]) for i in o.items):
-                out.append(L)
     return out
 
 
@@ -170,7 +182,8 @@ def check_framing(rep, fm, cli):
                       "state / an exception / an early exit): %s" % (fn, [repr([c for c in conj(fm.norm(P.guard)) if c not in entry])[:160] for P in finals] or "no final print"))
             for L in loops:
                 for x in ev[L.events[0]:L.events[1]]:
-                    if (x.kind == "exit") or (x.kind == "return" and x.func == L.func and L in x.loops):
+                    # (a return inside the loop shows up in the path condition of the closing print, checked above)
+                    if x.kind == "exit":
                         if fm.norm(x.guard) != FALSE:
                             rep.fail(rule, q, x.node, "%s inside the per-file loop of %s skips the closing output / changes the exit status" % (x.kind, fn), node=x.node)
     check_all_separator(rep, fm, rule)
@@ -190,15 +203,19 @@ def check_all_separator(rep, fm, rule):
         for k in flag:
             init, nxt, d, w = L.carried[k]
             lv = [x for x in walk(fm.norm(seps[0].guard)) if isinstance(x, Sym) and x.kind == "loopvar" and x.name.endswith(":" + k)]
-            if lv and init == Const(False):
-                # flag becomes true exactly where the document is printed
-                sets = [x for x in ev[L.events[0]:L.events[1]] if False]
+            if lv and init in (Const(False), Const(0)):
+                # the "something was printed" state (a flag, or a counter starting at 0) becomes true exactly where the
+                # document is printed and never reverts; the separator is printed on the document path when it is set
                 base = set(conj(fm.norm(L.body_guard)))
                 gdoc = and_(*[c for c in conj(fm.norm(docs[0].guard)) if c not in base])
                 gsep = [c for c in conj(fm.norm(seps[0].guard)) if c not in base]
                 nx = fm.norm(nxt)
-                ok = isinstance(nx, Ite) and implies(gdoc, nx.c)[0] and nx.a == Const(True) and nx.b == lv[0] \
-                    and implies(nx.c, gdoc)[0] and set(gsep) == set(conj(gdoc)) | {lv[0]}
+                v = lv[0]
+                is_set = {v, compare("ne", v, Const(0)), compare("gt", v, Const(0)), compare("ge", v, Const(1)), Op("truthy", v)}
+                becomes_set = (Const(True), add(v, Const(1))) if init == Const(0) else (Const(True),)
+                ok = isinstance(nx, Ite) and implies(gdoc, nx.c)[0] and nx.a in becomes_set and nx.b == v \
+                    and implies(nx.c, gdoc)[0] and len(set(gsep) - set(conj(gdoc))) == 1 and (set(gsep) - set(conj(gdoc))) <= is_set \
+                    and set(conj(gdoc)) <= set(gsep)
     rep.check(ok, rule, "-a: ',' is printed before a document iff an earlier document was printed (flag set exactly at the document print)",
               q, "print(',')", "the separator of the JSON array does not depend solely on whether a document has already been printed: "
               "a skipped/junk first file yields a stray or missing comma")
@@ -216,7 +233,7 @@ def check_walks(rep, fm):
         it = fm.norm(L.iter) if L.iter is not None else None
         if isinstance(it, Op) and it.op == "call:os.walk":
             n += 1
-            rep.check(any(b == TRUE for b in L.breaks), rule, "%s: os.walk loop stops after the top-level directory" % L.func.split(".")[-1],
+            rep.check(any(b == TRUE for b in L.stops), rule, "%s: os.walk loop stops after the top-level directory" % L.func.split(".")[-1],
                       L.func, L.node, "directory walk descends into subdirectories (no unconditional break after the first entry)", node=L.node)
             # only the files component (index 2) of the walk tuple may be iterated
     for L in fm.I.loops.values():
